@@ -91,6 +91,79 @@ def tr_guards(f):
     return out
 
 
+SHAPES = ['Fine', 'OneD', 'TwoRows', 'OneCol', 'TwoCols', 'NonSquare', 'EvenSize']
+# (rows, cols) a transform FUNCTION sees for each shape class (the classes of
+# model/Dispatch.v: what tools/props/C20.py passes) -- half image for the
+# quadrant methods, whole image for linbasex / rbasex
+FN_DIMS = dict(Fine=(11, 11), OneCol=(11, 1), TwoCols=(11, 2), NonSquare=(17, 21), EvenSize=(20, 20))
+FN_DIMS_FULL = dict(FN_DIMS, Fine=(21, 21))
+# array shapes given to abel.Transform for each class
+TR_SHAPES = dict(Fine=(21, 21), OneD=(21,), TwoRows=(2, 21), OneCol=(21, 1), TwoCols=(21, 3),
+                 NonSquare=(17, 21), EvenSize=(20, 20))
+
+
+def fn_shape_guards(f):
+    """top-level `if <test on rows / cols (and method) only>: raise` statements,
+    which must come after `IM = np.atleast_2d(IM)` and `rows, cols = IM.shape`"""
+    out = []
+    seen_2d = seen_unpack = False
+    for s in f.body:
+        src = ast.unparse(s)
+        if src == 'IM = np.atleast_2d(IM)':
+            seen_2d = True
+        if src in ('rows, cols = IM.shape', '(rows, cols) = IM.shape'):
+            seen_unpack = seen_2d
+        if isinstance(s, ast.If) and is_raise_body(s.body) and not s.orelse and names_in(s.test) & {'rows', 'cols'}:
+            if names_in(s.test) - {'rows', 'cols', 'method'}:
+                raise Unsupported('%s: shape guard mentions other names: %s' % (f.name, ast.unparse(s.test)))
+            if not seen_unpack:
+                raise Unsupported('%s: shape guard before `rows, cols = IM.shape` of the 2-D view' % f.name)
+            out.append(s.test)
+    return out
+
+
+class _SelfIM:
+    def __init__(self, shape):
+        import numpy
+        self.IM = numpy.zeros(shape)
+
+
+def tr_shape_guards(f):
+    out = []
+    for s in f.body:
+        if isinstance(s, ast.If) and is_raise_body(s.body) and not s.orelse and 'self.IM' in ast.unparse(s.test):
+            attrs = {a.attr for a in ast.walk(s.test) if isinstance(a, ast.Attribute)
+                     and isinstance(a.value, ast.Name) and a.value.id == 'self'}
+            if attrs - {'IM'} or names_in(s.test) - {'self', 'np'}:
+                raise Unsupported('Transform shape guard mentions other state: ' + ast.unparse(s.test))
+            out.append(s.test)
+    return out
+
+
+def shape_tables(meths):
+    import numpy
+    rows_fn = []
+    for coq, path, name in FUNCS:
+        gs = fn_shape_guards(find_function(path, name))
+        dims = FN_DIMS_FULL if coq in ('Linbasex', 'Rbasex') else FN_DIMS
+        for sh in SHAPES:
+            if sh not in dims:          # 1-D / two-row inputs are legitimate for the functions
+                rows_fn.append('  | %s, %s => false' % (coq, sh))
+                continue
+            r, c = dims[sh]
+            v = any(evaluate(g, {'rows': r, 'cols': c, 'method': METHOD_NAME[coq]}) for g in gs)
+            rows_fn.append('  | %s, %s => %s' % (coq, sh, 'true' if v else 'false'))
+    tg = tr_shape_guards(meths['_verify_some_inputs'])
+    if not tg:
+        raise Unsupported('Transform._verify_some_inputs has no guard on the shape of self.IM')
+    # _verify_some_inputs must be the first thing __init__ does with the data
+    rows_tr = []
+    for sh in SHAPES:
+        v = any(evaluate(g, {'self': _SelfIM(TR_SHAPES[sh]), 'np': numpy}) for g in tg)
+        rows_tr.append('  | %s => %s' % (sh, 'true' if v else 'false'))
+    return rows_fn, rows_tr
+
+
 def generate():
     rows_fn, rows_tr = [], []
     for coq, path, name in FUNCS:
@@ -120,13 +193,23 @@ def generate():
                 else:
                     r = any(evaluate(g, {'direction': d}) for g in gs)
             rows_tr.append('  | %s, %s => %s' % (coq, dcoq, 'true' if r else 'false'))
+    init_src = ast.unparse(meths['__init__'])
+    if 'self._verify_some_inputs()' not in init_src or \
+            init_src.index('self._verify_some_inputs()') > init_src.index('self._center_image('):
+        raise Unsupported('Transform.__init__ no longer verifies its inputs before centring')
+    sh_fn, sh_tr = shape_tables(meths)
     text = ('(* GENERATED by tools/translate/dir_guards.py from the direction guards in abel/*.py -- do not edit. *)\n'
             'From PA Require Import model.Dispatch.\n\n'
             '(* does the transform function raise for this direction (guards evaluated from the source)? *)\n'
             'Definition fn_dir_raises (m : meth) (d : dir) : bool :=\n  match m, d with\n%s\n  end.\n\n'
             '(* the same for a request made through abel.Transform *)\n'
-            'Definition tr_dir_raises (m : meth) (d : dir) : bool :=\n  match m, d with\n%s\n  end.\n'
-            % ('\n'.join(rows_fn), '\n'.join(rows_tr)))
+            'Definition tr_dir_raises (m : meth) (d : dir) : bool :=\n  match m, d with\n%s\n  end.\n\n'
+            '(* shape guards (`if <test on rows, cols>: raise`) of the transform functions, evaluated on the\n'
+            '   dimensions of each shape class *)\n'
+            'Definition fn_shape_raises (m : meth) (sh : shape) : bool :=\n  match m, sh with\n%s\n  end.\n\n'
+            '(* shape guards of Transform._verify_some_inputs (tests on self.IM) *)\n'
+            'Definition tr_shape_raises (sh : shape) : bool :=\n  match sh with\n%s\n  end.\n'
+            % ('\n'.join(rows_fn), '\n'.join(rows_tr), '\n'.join(sh_fn), '\n'.join(sh_tr)))
     vlib.write_if_changed(os.path.join(vlib.COQ, 'gen', 'DirGuards.v'), text)
     return text
 
